@@ -22,6 +22,10 @@ HashX(g, h) == IF g = 1 THEN ModN(ModPow2(FromBE(h), 381), QMod)
                ELSE <<ModN(ModPow2(FromBE(SubSeq(h, 49, 96)), 381), QMod), ModN(ModPow2(FromBE(SubSeq(h, 1, 48)), 381), QMod)>>
 HashPointOk(g, h, P) == LET x == FirstX(g, HashX(g, h), 200) IN
   /\ P # <<>> /\ P[1] = x /\ OnC(g, P)
+\* which of the two points over x: read_big_endian masks the top three bits and converts to Montgomery form BEFORE hash_reduce looks at the top
+\* bit, so the "greater root" request is never set and the function always returns the root that is the LESSER one in the library's own order
+\* (the order its encodings use for the sign flag, Encoding!Greater).  The root is part of the function users derive identities with.
+HashRootOk(g, h, P) == P = <<>> \/ ~Greater(g, P[2])
 
 \* first candidate of a rejection sampler: chunks of nb bytes (little-endian), masked to mbits, accepted if < m
 RECURSIVE FirstBelow(_, _, _, _, _)
@@ -47,7 +51,7 @@ Checks(ev) ==
     [] o = "hash.zp" -> << <<"value", Norm(ev.out.r) = ModN(ModPow2(FromBE(ev.hash), 255), RMod)>> >>
     [] o = "hash.scalar_reduce" -> << <<"value", Norm(ev.out.r) = ModN(ModPow2(Norm(ev.n), 255), RMod)>> >>
     [] o \in {"hash.g1", "hash.g2"} -> LET g == IF o = "hash.g1" THEN 1 ELSE 2 IN
-         << <<"first-point", HashPointOk(g, ev.hash, AffPt(g, ev.out.r))>>, <<"canon", AffCanon(g, ev.out.r)>>, <<"deterministic", ev.out.again = 1>> >>
+         << <<"first-point", HashPointOk(g, ev.hash, AffPt(g, ev.out.r))>>, <<"root", HashRootOk(g, ev.hash, AffPt(g, ev.out.r))>>, <<"canon", AffCanon(g, ev.out.r)>>, <<"deterministic", ev.out.again = 1>> >>
     [] o = "hash.id" -> LET P == AffPt(1, ev.out.r)
                             x == FirstX(1, HashX(1, ev.hash), 200)
                             y == QSqrt(E1!Rhs(x))
